@@ -1,12 +1,72 @@
 import IpaVerif.Model.Util
-/-! Line-protocol handlers for property C14 (model side). Import-free. -/
+import IpaVerif.Model.CircularBuf
+import IpaVerif.Model.QueueSpec
+/-! Line-protocol handlers for property C14 (model side). Import-free.
+
+`c14.circ <cap> <ws> <rs> <op,op,…>` with ops `w<hex>` (next().write), `t` (take), `c` (close);
+response: one item per op separated by `;`: `<out>|<len>|<can_read>|<can_write>|<closed>` where
+`<out>` is `ok` or the hex of the bytes returned by `take` (`-` = empty); the trace ends with
+`panic:<tag>` at the first panic; `new` panicking is the single item `panic:<tag>`. -/
 namespace IpaVerif.Driver.C14
-open IpaVerif.Util
+open IpaVerif.Util IpaVerif.CircularBuf
 
-/-- `some response` if the request belongs to this property, else `none`. -/
-def handle (_toks : List String) : Option String := none
+def parseCircOp (s : String) : Option Op :=
+  match s.toList with
+  | ['t'] => some .take
+  | ['c'] => some .close
+  | 'w' :: rest => (parseHexBytes (String.ofList rest)).map .write
+  | _ => none
 
-/-- Property oracle on (request, implementation response): `some "holds"`, `some "fails <why>"`, or `none`. -/
-def oracle (_toks : List String) (_impl : String) : Option String := none
+def parseCircOps (s : String) : Option (List Op) :=
+  if s = "-" then some [] else (s.splitOn ",").mapM parseCircOp
+
+def showObs (o : Obs) : String :=
+  s!"{o.len}|{boolStr o.canRead}|{boolStr o.canWrite}|{boolStr o.closed}"
+
+def showItem : Out × Option Obs → String
+  | (.panic msg, _) => s!"panic:{msg}"
+  | (.done, some o) => s!"ok|{showObs o}"
+  | (.bytes v, some o) => s!"{bytesHex v}|{showObs o}"
+  | (.done, none) => "ok"
+  | (.bytes v, none) => bytesHex v
+
+def showTrace (t : List (Out × Option Obs)) : String :=
+  if t.isEmpty then "-" else String.intercalate ";" (t.map showItem)
+
+def circ (cap ws rs : Nat) (ops : List Op) : String :=
+  match Buf.new cap ws rs with
+  | .error e => s!"panic:{e}"
+  | .ok b => showTrace (run b ops)
+
+/-- Panic items are compared up to their message by the oracle. -/
+def stripPanic (s : String) : String :=
+  String.intercalate ";" ((s.splitOn ";").map (fun it => if it.startsWith "panic" then "panic" else it))
+
+/-- Spec side: the reference FIFO queue of `QueueSpec` (no cursors, no vector). -/
+def circSpec (cap ws rs : Nat) (ops : List Op) : String :=
+  if cap = 0 ∨ ws = 0 ∨ rs = 0 ∨ cap % ws ≠ 0 ∨ rs % ws ≠ 0 then "panic"
+  else stripPanic (showTrace (specRun ⟨cap, ws, rs⟩ ⟨[], false⟩ ops))
+
+def handle (toks : List String) : Option String :=
+  match toks with
+  | ["c14.circ", cap, ws, rs, ops] => some <| Id.run do
+      let some cap := cap.toNat? | return "bad-request"
+      let some ws := ws.toNat? | return "bad-request"
+      let some rs := rs.toNat? | return "bad-request"
+      let some ops := parseCircOps ops | return "bad-request"
+      return circ cap ws rs ops
+  | _ => none
+
+def oracle (toks : List String) (impl : String) : Option String :=
+  match toks with
+  | ["c14.circ", cap, ws, rs, ops] => some <| Id.run do
+      let some cap := cap.toNat? | return "unknown"
+      let some ws := ws.toNat? | return "unknown"
+      let some rs := rs.toNat? | return "unknown"
+      let some ops := parseCircOps ops | return "unknown"
+      let want := circSpec cap ws rs ops
+      if stripPanic impl = want then return "holds"
+      else return s!"fails ring buffer trace differs from the FIFO byte queue: want {want}"
+  | _ => none
 
 end IpaVerif.Driver.C14
